@@ -23,8 +23,9 @@
 (*                     machine does; with the switch off the hit binds)    *)
 (*   AsBuilt.freehit   a memo hit is not charged against the budget        *)
 (*                     (known finding F3)                                  *)
-(* Not covered by this module: left-recursion support (its meaning is in   *)
-(* PegRef and is bound by T1).  throw/recover: the recovery stack rcv.     *)
+(* Left-recursion support (parseRuleRecursiveLeader: seed in the memo      *)
+(* table, growth attempts, last attempt undone) and throw/recover (the     *)
+(* recovery stack rcv) are part of the machine.                            *)
 (***************************************************************************)
 EXTENDS PegRef
 
@@ -54,8 +55,11 @@ ReadTo(inp, pt, off) ==
 Pt0(inp) == LET d == Decode(inp, 0) IN [off |-> 0, line |-> IF d[1] = 10 THEN 2 ELSE 1, col |-> IF d[1] = 10 THEN 0 ELSE 1]
 PosOf(pt) == <<pt.line, pt.col, pt.off>>
 
-Frame(kind, e) == [kind |-> kind, e |-> e, ph |-> 0, i |-> 0, acc |-> <<>>, pt0 |-> [off |-> 0, line |-> 0, col |-> 0],
-                   st0 |-> Store0, vd0 |-> 0, off0 |-> 0, rd0 |-> 0]
+NoPt == [off |-> 0, line |-> 0, col |-> 0]
+Frame(kind, e) == [kind |-> kind, e |-> e, ph |-> 0, i |-> 0, acc |-> <<>>, pt0 |-> NoPt,
+                   st0 |-> Store0, vd0 |-> 0, off0 |-> 0, rd0 |-> 0,
+                   \* parseRuleRecursiveLeader's locals: depth, lastResult, lastErrors, lastState
+                   depth |-> 0, last |-> [ok |-> FALSE, val |-> Nil, pt |-> NoPt], lerrs |-> <<>>, lstate |-> Store0]
 
 MInit(C) ==
   LET x1 == Advance(C, X0, 0, "") IN          \* the first read(), outside any rule
@@ -73,6 +77,11 @@ TopEnv(m) == m.vst[Len(m.vst)]
 PushV(m) == Append(m.vst, <<>>)
 PopV(m) == SubSeq(m.vst, 1, Len(m.vst) - 1)
 Memoizing(C) == C.opt.memo
+(* the leftRecursive / leader flags the generator wrote into the grammar table (present only with -support-left-recursion) *)
+LRec(C, ri) == C.G.lrflags # <<>> /\ C.G.lrflags[ri][1]
+Leader(C, ri) == C.G.lrflags # <<>> /\ C.G.lrflags[ri][2]
+InLR(C, m) == m.rst # <<>> /\ LRec(C, m.rst[Len(m.rst)])       \* expressions inside a left-recursive rule are not memoised
+MemoX(C, m) == Memoizing(C) /\ ~InLR(C, m)
 
 (* the step invariants (properties P) are evaluated where a frame is left: chk records the first that fails *)
 ExitChk(m, f, ok, pt, store, vst) ==
@@ -86,7 +95,8 @@ ExitChk(m, f, ok, pt, store, vst) ==
 Leave(C, m, fn, ok, val, pt, m2) ==
   LET f == Top(m)
       key == <<f.kind, f.e, f.off0>>
-      memo2 == IF Memoizing(C) THEN {t \in m2.memo : t.key # key} \cup {[key |-> key, ok |-> ok, val |-> val, pt |-> pt]} ELSE m2.memo
+      store == IF f.kind = "rule" THEN Memoizing(C) /\ ~LRec(C, f.e) ELSE MemoX(C, m2)
+      memo2 == IF store THEN {t \in m2.memo : t.key # key} \cup {[key |-> key, ok |-> ok, val |-> val, pt |-> pt]} ELSE m2.memo
   IN [m2 EXCEPT !.stk = Pop(m), !.mode = IF Len(m.stk) = 1 THEN "done" ELSE "ret", !.res = [ok |-> ok, val |-> val], !.pt = pt,
                 !.memo = memo2, !.lbl = Lbl("<", fn, pt), !.chk = ExitChk(m2, f, ok, pt, m2.store, m2.vst)]
 
@@ -113,10 +123,38 @@ Step(C, m) ==
      IF m.mode = "eval" /\ f.ph = 0 THEN        \* "> parseRule NAME": then the rule-level memo lookup
           LET f1 == [f EXCEPT !.ph = 1, !.off0 = m.pt.off, !.pt0 = m.pt, !.st0 = m.store, !.vd0 = Len(m.vst), !.rd0 = Len(m.rst)] IN
           [m EXCEPT !.stk = SetTop(m, f1), !.lbl = Lbl(">", fn, m.pt)]
+     ELSE IF m.mode = "eval" /\ f.ph = 1 /\ Leader(C, f.e) THEN
+          \* parseRuleRecursiveLeader: the memo entry of (rule, offset) is the seed; it exists with and without Memoize
+          LET key == <<"rule", f.e, m.pt.off>>
+              hit == {t \in m.memo : t.key = key} IN
+          IF hit # {} THEN
+               LET t == CHOOSE t \in hit : TRUE IN
+               [m EXCEPT !.stk = Pop(m), !.mode = IF Len(m.stk) = 1 THEN "done" ELSE "ret", !.res = [ok |-> t.ok, val |-> t.val],
+                         !.pt = t.pt, !.lbl = Lbl("<", fn, t.pt)]
+          ELSE [m EXCEPT !.stk = SetTop(m, [f EXCEPT !.ph = 3, !.depth = 0, !.last = [ok |-> FALSE, val |-> Nil, pt |-> m.pt], !.lerrs = m.errs]),
+                         !.lbl = <<"-", "", 0, 0, 0>>]
+     ELSE IF m.mode = "eval" /\ f.ph = 3 THEN
+          \* one growth attempt: lastState := cloneState(); setMemoized(start, rule, lastResult); parseRule(rule)
+          LET key == <<"rule", f.e, f.off0>> IN
+          [m EXCEPT !.stk = Append(SetTop(m, [f EXCEPT !.ph = 4, !.lstate = m.store]), Frame("x", C.G.rules[f.e])), !.mode = "eval",
+                    !.memo = {t \in m.memo : t.key # key} \cup {[key |-> key, ok |-> f.last.ok, val |-> f.last.val, pt |-> f.last.pt]},
+                    !.rst = Append(m.rst, f.e), !.vst = PushV(m), !.lbl = <<"-", "", 0, 0, 0>>]
+     ELSE IF f.ph = 4 THEN
+          \* the attempt returned
+          LET m1 == [m EXCEPT !.vst = PopV(m), !.rst = SubSeq(m.rst, 1, Len(m.rst) - 1)]
+              key == <<"rule", f.e, f.off0>> IN
+          IF ~m.res.ok \/ (m.pt.off <= f.last.pt.off /\ f.depth # 0) THEN
+               \* the final, non-extending attempt: restoreState(lastState), errs = lastErrors, restore(lastResult.end), memo = lastResult
+               LET m2 == [m1 EXCEPT !.store = f.lstate, !.errs = f.lerrs,
+                                    !.memo = {t \in m1.memo : t.key # key} \cup {[key |-> key, ok |-> f.last.ok, val |-> f.last.val, pt |-> f.last.pt]}] IN
+               [m2 EXCEPT !.stk = Pop(m), !.mode = IF Len(m.stk) = 1 THEN "done" ELSE "ret", !.res = [ok |-> f.last.ok, val |-> f.last.val],
+                          !.pt = f.last.pt, !.lbl = Lbl("<", fn, f.last.pt)]
+          ELSE [m1 EXCEPT !.stk = SetTop(m, [f EXCEPT !.ph = 3, !.depth = f.depth + 1, !.last = [ok |-> TRUE, val |-> m.res.val, pt |-> m.pt], !.lerrs = m.errs]),
+                          !.mode = "eval", !.pt = f.pt0, !.lbl = <<"-", "", 0, 0, 0>>]
      ELSE IF m.mode = "eval" /\ f.ph = 1 THEN
           LET key == <<"rule", f.e, m.pt.off>>
               hit == {t \in m.memo : t.key = key} IN
-          IF Memoizing(C) /\ hit # {} THEN
+          IF Memoizing(C) /\ ~LRec(C, f.e) /\ hit # {} THEN
                LET t == CHOOSE t \in hit : TRUE IN
                [m EXCEPT !.stk = Pop(m), !.mode = IF Len(m.stk) = 1 THEN "done" ELSE "ret", !.res = [ok |-> t.ok, val |-> t.val],
                          !.pt = t.pt, !.lbl = Lbl("<", fn, t.pt)]
@@ -130,7 +168,7 @@ Step(C, m) ==
      \* parseExprWrap: memo lookup, then parseExpr: charge the budget, then the function's prologue
      LET key == <<"x", e, m.pt.off>>
          hit == {t \in m.memo : t.key = key} IN
-     IF Memoizing(C) /\ hit # {} THEN
+     IF MemoX(C, m) /\ hit # {} THEN
           LET t == CHOOSE t \in hit : TRUE
               bind == n.k = "label" /\ t.ok /\ ~C.asbuilt.memolabel       \* as built, the binding is skipped (F2)
               vst2 == IF bind THEN [m.vst EXCEPT ![Len(m.vst)] = Append(@, <<n.lab, t.val>>)] ELSE m.vst
